@@ -115,9 +115,13 @@ impl Case {
             return "caller.test".into();
         }
         match self.port {
-            Some(p) if p != self.default_port() => format!("{}:{p}", self.host),
-            _ => self.host.to_string(),
+            Some(p) if p != self.default_port() => format!("{}:{p}", self.bare_host()),
+            _ => self.bare_host().to_string(),
         }
+    }
+    /// The URI host without user information.
+    fn bare_host(&self) -> &str {
+        self.host.rsplit('@').next().unwrap_or(self.host)
     }
     fn want_path(&self) -> &str {
         if self.path.is_empty() {
@@ -131,7 +135,7 @@ impl Case {
 pub fn grammar() -> Vec<Case> {
     let mut v = vec![];
     for scheme in ["http", "https", "ws", "wss"] {
-        for host in ["example.com", "127.0.0.1", "[::1]", "EXAMPLE.com"] {
+        for host in ["example.com", "127.0.0.1", "[::1]", "EXAMPLE.com", "user:pw@example.com", "u@[::1]"] {
             for port in [None, Some(80u16), Some(443), Some(8080)] {
                 for path in ["", "/", "/a/b", "/a%20b", "//x"] {
                     for query in [None, Some(""), Some("q=1&r=2")] {
@@ -193,7 +197,13 @@ fn check_part1(c: &Case, conn_version: http::Version) -> Result<String, (String,
             Some(p) => format!("{}:{p}", c.host),
             None => c.host.to_string(),
         };
-        if p.uri.scheme().is_some() || p.uri.authority().map(|a| a.as_str().to_string()) != Some(want_auth.clone()) || p.uri.path_and_query().map(|pq| pq.as_str()).unwrap_or("") != "" && p.uri.path_and_query().map(|pq| pq.as_str()) != Some("/") && false {
+        // user information in a CONNECT target is not addressed by the statement: compare host and port only
+        let auth_ok = if c.host.contains('@') {
+            p.uri.host() == Some(c.bare_host()) && p.uri.port_u16() == c.port
+        } else {
+            p.uri.authority().map(|a| a.as_str().to_string()) == Some(want_auth.clone())
+        };
+        if p.uri.scheme().is_some() || !auth_ok || p.uri.path_and_query().map(|pq| pq.as_str()).unwrap_or("") != "" && p.uri.path_and_query().map(|pq| pq.as_str()) != Some("/") && false {
             return Err(("h1-connect-target".into(), format!("CONNECT target is {:?}, expected authority-form {want_auth}", p.uri.to_string())));
         }
     } else {
